@@ -58,14 +58,30 @@ theorem sampleFromConfig_spec {cfg fixed : Config} {labels : Option (List Nat)} 
     {outs : List (List (Hye × Nat))} (h : sampleFromConfig cfg fixed labels t = some outs) :
     ∃ ys, mcmcRoutine cfg fixed t.burn t.thins = some ys ∧ outs.length = ys.length ∧
       ∀ k (h1 : k < ys.length) (h2 : k < outs.length),
-        ∃ w, t.weights[k]? = some w ∧ outputStage ys[k] w labels = some outs[k] := by
+        ∃ q, t.quantiles[k]? = some q ∧ outputStage ys[k] (truncWeights q) labels = some outs[k] := by
   unfold sampleFromConfig at h
   cases hm : mcmcRoutine cfg fixed t.burn t.thins with
   | none => simp [hm] at h
   | some ys =>
     simp only [hm, Option.bind_some] at h
     obtain ⟨a, b⟩ := outputsOf_spec h
-    exact ⟨ys, rfl, a, b⟩
+    refine ⟨ys, rfl, a, ?_⟩
+    intro k h1 h2
+    obtain ⟨w, hw, ho⟩ := b k h1 h2
+    rw [List.getElem?_map] at hw
+    cases hq : t.quantiles[k]? with
+    | none => simp [hq] at hw
+    | some q =>
+      simp only [hq, Option.map_some, Option.some.injEq] at hw
+      exact ⟨q, rfl, hw ▸ ho⟩
+
+/-- a truncated-Poisson weight is positive whatever quantile scipy delivers -/
+theorem truncWeight_pos (q : Nat) : 0 < truncWeight q := by unfold truncWeight; omega
+
+theorem truncWeights_pos (qs : List Nat) : ∀ w ∈ truncWeights qs, 0 < w := by
+  intro w hw
+  obtain ⟨q, _, rfl⟩ := List.mem_map.mp hw
+  exact truncWeight_pos q
 
 /-! ## `mapping.transform` -/
 
